@@ -39,7 +39,9 @@ CONSTANTS NThreads,      \* number of threads
           Mutant,        \* "none" | "NoPoolLock" | "NoConfLock" | "LockNotReentrant" |
                          \* "FillBeforeProbe" | "NoClawLock" | "ReleaseEarly"
           Legacy,        \* subset of {"warn_ctx"}: catch_warnings() around code generation
-          WarmPool       \* TRUE: every pool starts with one released item (a process that has decorated before)
+          WarmPool,      \* TRUE: every pool starts with one released item (a process that has decorated before)
+          LazyProg       \* TRUE: a thread picks its next operation when it invokes it (one initial state;
+                         \* states before the choice are shared); FALSE: programs fixed in Init, threads sorted
 
 Thr == 1..NThreads
 Locks == {"conf", "pool", "th", "claw"}
@@ -118,7 +120,7 @@ Range(s) == {s[i] : i \in DOMAIN s}
 Progs == { p \in [1..ProgLen -> OpSel] : TRUE }
 
 Init ==
-  /\ prog \in [Thr -> Progs]
+  /\ prog \in IF LazyProg THEN {[t \in Thr |-> <<>>]} ELSE [Thr -> Progs]
   /\ \A t \in 1..(NThreads - 1) : ProgCode(prog[t]) <= ProgCode(prog[t + 1])   \* thread symmetry
   /\ ip = [t \in Thr |-> 0]
   /\ stk = [t \in Thr |-> <<>>]
@@ -175,9 +177,11 @@ FirstFrames(op) ==
 
 Begin(t) ==
   /\ stk[t] = <<>> /\ ip[t] < ProgLen
-  /\ stk' = [stk EXCEPT ![t] = FirstFrames(OpDef(prog[t][ip[t] + 1]))]
+  /\ \E name \in (IF LazyProg THEN OpSel ELSE {prog[t][ip[t] + 1]}) :
+       /\ prog' = IF LazyProg THEN [prog EXCEPT ![t] = Append(@, name)] ELSE prog
+       /\ stk' = [stk EXCEPT ![t] = FirstFrames(OpDef(name))]
   /\ Did(t, "inv")
-  /\ UNCHANGED <<prog, ip, reg, res, lockv, poolv, confv, thv, memov, clawv, wstate, fault>>
+  /\ UNCHANGED <<ip, reg, res, lockv, poolv, confv, thv, memov, clawv, wstate, fault>>
 
 Respond(t, r) ==     \* the response of the current top-level operation
   /\ res' = [res EXCEPT ![t] = Append(@, r)]
